@@ -111,6 +111,12 @@ DelegDescs ==
        { <<sg, op1, ch1, f1, o2, NoCh, 0, "none", NoCh>> : o2 \in {"none", "resample0", "resample1"} }
        \cup { <<sg, op1, ch1, f1, op2, ch2, f2, "none", NoCh>> : op2 \in {"qualify", "ndqualify"}, ch2 \in Ch2(P, K1), f2 \in {0, 1} }
      : ch1 \in Ch1, f1 \in {0, 1} } : op1 \in {"keygen", "ndkeygen"} } : sg \in {0, 1} }
+\* hidden slots whose (ignored) identity field is not zero: the flag alone decides, in key generation and in delegation
+HvDescs ==
+  LET v7 == FromNat(7)
+      c1s == { <<<<"HV", FromNat(5)>>, <<"U">>, <<"V", v7>>>>, <<<<"V", v7>>, <<"HV", FromNat(3)>>, <<"U">>>>, <<<<"HV", Sub(Pow2(256), One)>>, <<"HV", FromNat(9)>>, <<"U">>>> }
+  IN { <<1, op1, ch1, f1, "none", NoCh, 0, "none", NoCh>> : op1 \in {"keygen", "ndkeygen"}, ch1 \in c1s, f1 \in {0, 1} }
+     \cup { <<1, "keygen", <<<<"V", v7>>, <<"U">>, <<"U">>>>, 0, op2, <<<<"V", v7>>, <<"HV", FromNat(9)>>, <<"U">>>>, f2, "none", NoCh>> : op2 \in {"qualify", "ndqualify"}, f2 \in {0, 1} }
 \* three-step chains below a key with a hidden slot in the middle
 ChainDescs ==
   LET P == P3(1)  c1 == <<<<"U">>, <<"H">>, <<"U">>>>  K1 == Key1(P, "keygen", c1, 0) IN
@@ -257,7 +263,7 @@ Keep == IF "KEEP" \in DOMAIN IOEnv THEN atoi(IOEnv.KEEP) ELSE 1        \* keep o
 \* drop whole classes, e.g. every history in which the two flags differ)
 Mix(i) == (((i * 7919 + Seed * 104729 + 12345) % 1000003) * 31 + i) % 1000003
 Thinned(sq) == LET sel == SelectSeq([i \in 1..Len(sq) |-> i], LAMBDA i : Mix(i) % Keep = 0 /\ i % NShards = Shard) IN [k \in 1..Len(sel) |-> sq[sel[k]]]
-Cases == CASE Family = "deleg" -> LET ds == Thinned(SetToSeq(DelegDescs) \o SetToSeq(ChainDescs)) IN [k \in 1..Len(ds) |-> BuildDeleg(ds[k])]
+Cases == CASE Family = "deleg" -> LET ds == Thinned(SetToSeq(DelegDescs) \o SetToSeq(ChainDescs)) \o (IF Shard = 0 THEN SetToSeq(HvDescs) ELSE <<>>) IN [k \in 1..Len(ds) |-> BuildDeleg(ds[k])]
            [] Family = "neg" -> Thinned(SetToSeq(NegCases(1)))
            [] Family = "sig" -> Thinned(SetToSeq(SigCases))
            [] Family = "inplace" -> Thinned(InplaceCases)
